@@ -252,8 +252,8 @@ class Functor(pg_object.Object, utils.Functor):
     other = super()._sym_clone(deep, memo)
     # pylint: disable=protected-access
     other._non_default_args = set(self._non_default_args)
-    other._default_args = self._default_args
-    other._specified_args = self._specified_args
+    other._default_args = set(self._default_args)
+    other._specified_args = set(self._specified_args)
     other._override_args = self._override_args
     other._ignore_extra_args = self._ignore_extra_args
     # pylint: enable=protected-access
